@@ -49,6 +49,7 @@ def leaves_fn(c, st):
 c = contract('AbstractJob._add_one_requirement', FJ).param('self').param('job').returns('none')
 c.for_props('C19')
 c.requires('self-is-a-job', lambda c: isa['AbstractJob'](c.a.self))
+c.requires('job-is-a-live-job', lambda c: And(isa['AbstractJob'](c.a.job), c.pre.alive(c.a.job)))
 c.modifies('$elems')
 c.ensures('adds-the-job-unless-it-is-self', lambda c: (lambda x: ForAll([x], c.cur.mem(c.cur.f('required', c.a.self), x) ==
           Or(c.pre.mem(c.pre.f('required', c.a.self), x), And(x == c.a.job, c.a.job != c.a.self)),
@@ -57,38 +58,185 @@ c.ensures('frame[elems]', lambda c: unchanged_elems(c.pre, c.cur, lambda s: s ==
 
 
 # ---------------------------------------------------------------- AbstractJob.requires
+ARG = z3.Function('ARG', Ref, L.B)       # x belongs to the (finitely nested) argument structure of a requires() call
+
+
+def other_iterable(x):
+    return And(x != NONE, Not(isa['AbstractJob'](x)), Not(isa['Sequence'](x)), Not(isa['list'](x)),
+               Not(isa['tuple'](x)), Not(isa['set'](x)))
+
+
+def arg_closure(st):
+    """input validity of an argument structure: closed under taking items; its set containers are plain local
+    sets (not the requirement container of a job), everything in it is alive"""
+    x, e = q(2)
+    i = fresh('i', L.I)
+    sj = st.f('seqjobs', x)
+    return And(
+        ForAll([x, i], Implies(And(ARG(x), Or(isa['list'](x), isa['tuple'](x)), 0 <= i, i < st.llen(x)),
+                               ARG(st.lat(x, i))), patterns=[z3.MultiPattern(ARG(x), st.lat(x, i))]),
+        ForAll([x, e], Implies(And(ARG(x), isa['set'](x), st.mem(x, e)), ARG(e)),
+               patterns=[z3.MultiPattern(ARG(x), st.mem(x, e))]),
+        ForAll([x], Implies(And(ARG(x), isa['Sequence'](x), st.llen(sj) > 0),
+                            And(ARG(st.lat(sj, st.llen(sj) - 1)), isa['AbstractJob'](st.lat(sj, st.llen(sj) - 1)))),
+               patterns=[z3.MultiPattern(ARG(x), isa['Sequence'](x))]),
+        # arbitrary other iterables are outside the statement (lists, tuples and sets are what it speaks of)
+        ForAll([x], Implies(ARG(x), Not(other_iterable(x))), patterns=[ARG(x)]),
+        ForAll([x], Implies(ARG(x), st.alive(x)), patterns=[ARG(x)]),
+        ForAll([x], Implies(And(ARG(x), isa['set'](x)), st.f('$setrole', x) == 0), patterns=[ARG(x)]),
+        ForAll([x], Implies(And(ARG(x), isa['Sequence'](x)), And(st.alive(sj), Not(ARG(sj)))),
+               patterns=[z3.MultiPattern(ARG(x), isa['Sequence'](x))]))
+
+
+LEAVES = z3.Function('LEAVES', Ref, L.SetV)    # rigid: the argument structure is immutable during the call tree
+_LEAVES_AX = {}
+
+
+def leaves_fn(c, st):
+    """LEAVES(x): the jobs an argument of requires() stands for (statement of C19):
+       None -> {} ; a job -> {job} ; a Sequence -> {its last job} or {} ; a tuple/list/set -> union over its items.
+    One rigid function; its unfolding axioms are stated on the given state and only for objects of the argument
+    structure (ARG), whose containers no state of the call tree changes (frame obligations of requires())."""
+    key = tuple(st.H(f).get_id() for f in ('$elems', '$llen', '$lat', 'seqjobs'))
+    if key not in _LEAVES_AX:
+        lv = LEAVES
+        x, y, e = q(3)
+        i = fresh('i', L.I)
+        sj = st.f('seqjobs', x)
+        seqlike = lambda x_: Or(isa['list'](x_), isa['tuple'](x_))
+        _LEAVES_AX[key] = [
+            ForAll([y], Not(Select(lv(NONE), y)), patterns=[Select(lv(NONE), y)]),
+            ForAll([x, y], Implies(isa['AbstractJob'](x), Select(lv(x), y) == (y == x)), patterns=[Select(lv(x), y)]),
+            ForAll([x, y], Implies(And(ARG(x), isa['Sequence'](x)), Select(lv(x), y) ==
+                                   And(st.llen(sj) > 0, y == st.lat(sj, st.llen(sj) - 1))),
+                   patterns=[Select(lv(x), y)]),
+            ForAll([x, y], Implies(And(ARG(x), seqlike(x)), Select(lv(x), y) ==
+                                   Exists([i], And(0 <= i, i < st.llen(x), Select(lv(st.lat(x, i)), y)))),
+                   patterns=[Select(lv(x), y)]),
+            ForAll([x, i, y], Implies(And(ARG(x), seqlike(x), 0 <= i, i < st.llen(x), Select(lv(st.lat(x, i)), y)),
+                                      Select(lv(x), y)),
+                   patterns=[z3.MultiPattern(Select(lv(st.lat(x, i)), y), ARG(x))]),
+            ForAll([x, y], Implies(And(ARG(x), isa['set'](x)), Select(lv(x), y) ==
+                                   Exists([e], And(st.mem(x, e), Select(lv(e), y)))),
+                   patterns=[Select(lv(x), y)]),
+            ForAll([x, e, y], Implies(And(ARG(x), isa['set'](x), st.mem(x, e), Select(lv(e), y)), Select(lv(x), y)),
+                   patterns=[z3.MultiPattern(Select(lv(e), y), st.mem(x, e))]),
+        ]
+    c.fact(_LEAVES_AX[key])
+    return LEAVES
+
+
+def prefix_leaves(c, lv, lst, upto):
+    """x is a leaf of one of the first `upto` items of the list object lst (entry state)"""
+    i = fresh('i', L.I)
+    return lambda x: Exists([i], And(0 <= i, i < upto, Select(lv(c.pre.lat(lst, i)), x)))
+
+
 c = contract('AbstractJob.requires', FJ).param('self').param('requirements', 'varargs') \
     .param('remove', 'kw:bool', False).returns('ref')
 c.for_props('C19', 'C18')
+c.fieldmap = {'jobs': 'seqjobs'}
 c.requires('self-is-a-job', lambda c: isa['AbstractJob'](c.a.self))
-c.modifies('$elems', '$alive', '$llen', '$lat')
+c.requires('argument-structure', lambda c: And(arg_closure(c.pre), (lambda i: ForAll([i], Implies(
+    And(0 <= i, i < c.pre.llen(c.a.requirements)), ARG(c.pre.lat(c.a.requirements, i))),
+    patterns=[c.pre.lat(c.a.requirements, i)]))(fresh('i', L.I)), Not(ARG(c.a.requirements))))
+c.modifies('$elems', '$alive', '$llen', '$lat', '$setrole')
+
+
+def _own(c, st):
+    return st.f('required', c.a.self)
 
 
 def _req_add(c):
     lv = leaves_fn(c, c.pre)
-    LV = lv(c.a.requirements)
+    LV = prefix_leaves(c, lv, c.a.requirements, c.pre.llen(c.a.requirements))
     x = q()
-    r0, r1 = c.pre.f('required', c.a.self), c.cur.f('required', c.a.self)
-    return Implies(Not(c.a.remove), ForAll([x], c.cur.mem(r1, x) ==
-                                           Or(c.pre.mem(r0, x), And(Select(LV, x), x != c.a.self)),
-                                           patterns=[c.cur.mem(r1, x)]))
+    return Implies(Not(c.a.remove), ForAll([x], c.cur.mem(_own(c, c.cur), x) ==
+                                           Or(c.pre.mem(_own(c, c.pre), x), And(LV(x), x != c.a.self)),
+                                           patterns=[c.cur.mem(_own(c, c.cur), x)]))
 
 
 def _req_remove(c):
     lv = leaves_fn(c, c.pre)
-    LV = lv(c.a.requirements)
+    LV = prefix_leaves(c, lv, c.a.requirements, c.pre.llen(c.a.requirements))
     x = q()
-    r0, r1 = c.pre.f('required', c.a.self), c.cur.f('required', c.a.self)
     return Implies(c.a.remove, And(
-        ForAll([x], Implies(Select(LV, x), c.pre.mem(r0, x)), patterns=[Select(LV, x)]),
-        ForAll([x], c.cur.mem(r1, x) == And(c.pre.mem(r0, x), Not(Select(LV, x))), patterns=[c.cur.mem(r1, x)])))
+        ForAll([x], Implies(LV(x), c.pre.mem(_own(c, c.pre), x)), patterns=[c.pre.mem(_own(c, c.pre), x)]),
+        ForAll([x], c.cur.mem(_own(c, c.cur), x) == And(c.pre.mem(_own(c, c.pre), x), Not(LV(x))),
+               patterns=[c.cur.mem(_own(c, c.cur), x)])))
+
+
+def _req_frame(c):
+    s = q()
+    return ForAll([s], Implies(And(c.pre.alive(s), s != _own(c, c.pre)), c.cur.elems(s) == c.pre.elems(s)),
+                  patterns=[c.cur.elems(s)])
+
+
+def _req_lists(c):
+    s = q()
+    return And(ForAll([s], Implies(c.pre.alive(s), And(c.cur.llen(s) == c.pre.llen(s),
+                                                       Select(c.cur.H('$lat'), s) == Select(c.pre.H('$lat'), s))),
+                      patterns=[c.cur.llen(s)]), roles_frame(c.pre, c.cur))
 
 
 c.ensures('adds-exactly-the-leaves-except-self', _req_add, props=['C19', 'C18'])
 c.ensures('removes-exactly-the-leaves', _req_remove, props=['C19'])
 c.ensures('returns-self', lambda c: c.result == c.a.self, props=['C19'])
-c.ensures('frame[elems]', lambda c: (lambda s: ForAll([s], Implies(
-    And(c.pre.alive(s), s != c.pre.f('required', c.a.self)), c.cur.elems(s) == c.pre.elems(s)),
-    patterns=[c.cur.elems(s)]))(q()))
-c.raises('KeyError', 'only-with-remove-and-an-absent-leaf', lambda c: And(
-    c.a.remove, (lambda x: Exists([x], And(Select(leaves_fn(c, c.pre)(c.a.requirements), x))))(q())), props=['C19'])
+c.ensures('frame[elems]', _req_frame)
+c.ensures('frame[lists-and-roles]', _req_lists)
+c.raises('KeyError', 'only-when-removing', lambda c: c.a.remove, props=['C19'])
+c.raises('KeyError', 'frame[elems]', _req_frame)
+c.raises('KeyError', 'frame[lists-and-roles]', _req_lists)
+
+
+def _rq_outer(c):
+    """for requirement in requirements"""
+    lv = leaves_fn(c, c.pre)
+    LV = prefix_leaves(c, lv, c.a.requirements, c.index)
+    x = q()
+    own0, own1 = _own(c, c.pre), _own(c, c.cur)
+    return [
+        ('add-mode', Implies(Not(c.a.remove), ForAll([x], c.cur.mem(own1, x) ==
+                                                     Or(c.pre.mem(own0, x), And(LV(x), x != c.a.self)),
+                                                     patterns=[c.cur.mem(own1, x)]))),
+        ('remove-mode', Implies(c.a.remove, And(
+            ForAll([x], Implies(LV(x), c.pre.mem(own0, x)), patterns=[c.pre.mem(own0, x)]),
+            ForAll([x], c.cur.mem(own1, x) == And(c.pre.mem(own0, x), Not(LV(x))), patterns=[c.cur.mem(own1, x)])))),
+        ('frame[elems]', _req_frame(c)),
+        ('frame[lists-and-roles]', _req_lists(c)),
+    ]
+
+
+def _rq_inner(c):
+    """for req in requirement  (requirement a tuple, a list or a set)"""
+    lv = leaves_fn(c, c.pre)
+    o = c.outer[-1]
+    LV = prefix_leaves(c, lv, c.a.requirements, o['index'])
+    x = q()
+    i = fresh('i', L.I)
+    own0, own1 = _own(c, c.pre), _own(c, c.cur)
+    if c.index is not None:
+        part = lambda x_: Exists([i], And(0 <= i, i < c.index, Select(lv(c.pre.lat(c.iterlist, i)), x_)))
+    else:
+        e = q()
+        part = lambda x_: Exists([e], And(Select(c.visited, e), Select(lv(e), x_)))
+    seen = lambda x_: Or(LV(x_), part(x_))
+    return [
+        ('add-mode', Implies(Not(c.a.remove), ForAll([x], c.cur.mem(own1, x) ==
+                                                     Or(c.pre.mem(own0, x), And(seen(x), x != c.a.self)),
+                                                     patterns=[c.cur.mem(own1, x)]))),
+        ('remove-mode', Implies(c.a.remove, And(
+            ForAll([x], Implies(seen(x), c.pre.mem(own0, x)), patterns=[c.pre.mem(own0, x)]),
+            ForAll([x], c.cur.mem(own1, x) == And(c.pre.mem(own0, x), Not(seen(x))), patterns=[c.cur.mem(own1, x)])))),
+        ('frame[elems]', _req_frame(c)),
+        ('frame[lists-and-roles]', _req_lists(c)),
+    ]
+
+
+def _cl(fn, labels, key):
+    return [(lab, (lambda lab: lambda c: dict(c.memo(key, lambda: fn(c)))[lab])(lab)) for lab in labels]
+
+
+_RQ = ['add-mode', 'remove-mode', 'frame[elems]', 'frame[lists-and-roles]']
+c.loop(0, inv=_cl(_rq_outer, _RQ, 'rq0'))
+c.loop(1, inv=_cl(_rq_inner, _RQ, 'rq1'))
